@@ -20,7 +20,7 @@ func vObserve(ctx *fasthttp.RequestCtx) vSeen {
 	r := &ctx.Request
 	seen := vSeen{method: string(r.Header.Method()), path: string(r.Header.RequestURI()), host: string(r.Header.Host()),
 		ua: string(r.Header.UserAgent()), body: string(r.Body())}
-	for _, name := range []string{"x-a", "x-b", "content-length"} {
+	for _, name := range []string{"x-a", "x-b", "content-length", "x-t"} {
 		if v := r.Header.Peek(name); v != nil {
 			seen.fields = append(seen.fields, name+": "+string(v))
 		}
@@ -120,6 +120,68 @@ func VerifH_C01_split() {
 	vCover("C01.split.mid-field", cut1 == 3)
 }
 
+// The other shapes a request can take: the HEADERS frame padded and carrying
+// priority fields (exclusive bit, any dependency, any weight), the header block
+// whole or cut in two, and the request ended by a trailer block (one field)
+// that arrives whole or cut at any byte into HEADERS + CONTINUATION. The
+// handler runs once and sees the same request, plus the trailer field.
+//
+//verif:harness prop=C01 unwind=200 timeout=600
+func VerifH_C01_shapes() {
+	blk := vRichBlock('1')
+	tr := []byte{0x00, 0x03, 'x', '-', 't', 0x02, 't', '1'}
+	want := vSeen{method: "POST", path: "/1", host: "h.x", ua: "ua", body: "abc", fields: []string{"x-a: v1", "x-b: v2", "content-length: 3"}}
+	s := vStartObsServer(8)
+	prio := vBool()
+	padded := vBool()
+	cut := [2]int{len(blk), 5}[vRange(0, 1)]
+	trailers := vBool()
+	var pl []byte
+	flags := byte(0)
+	if padded {
+		pl = append(pl, 3)
+		flags |= 0x8
+	}
+	if prio {
+		dep := vU32()
+		pl = append(pl, byte(dep>>24), byte(dep>>16), byte(dep>>8), byte(dep), vU8())
+		flags |= 0x20
+		vAssume(dep&0x7fffffff != 1) // a stream cannot depend on itself
+	}
+	pl = append(pl, blk[:cut]...)
+	if padded {
+		pl = append(pl, 0, 0, 0)
+	}
+	if cut == len(blk) {
+		s.send(vFrame(0x1, flags|0x4, 1, pl))
+	} else {
+		s.send(vFrame(0x1, flags, 1, pl))
+		s.send(vFrame(0x9, 0x4, 1, blk[cut:]))
+	}
+	if trailers {
+		want.fields = append(want.fields, "x-t: t1")
+		s.send(vFrame(0x0, 0x0, 1, []byte("abc")))
+		tcut := vRange(0, len(tr))
+		if tcut == len(tr) {
+			s.send(vFrame(0x1, 0x5, 1, tr))
+		} else {
+			s.send(vFrame(0x1, 0x1, 1, tr[:tcut]))
+			s.send(vFrame(0x9, 0x4, 1, tr[tcut:]))
+		}
+	} else {
+		s.send(vFrame(0x0, 0x1, 1, []byte("abc")))
+	}
+	r := vClassify(s.replies())
+	vNote(fmt.Sprintf("prio=%v padded=%v cut=%d trailers=%v goaway=%v/%d rst=%v seen=%v", prio, padded, cut, trailers, r.goaway, r.goawayCode, r.rst, s.seen))
+	vAssert(!r.goaway && len(r.rst) == 0, "C01.shapes.no-error")
+	vAssert(len(s.seen) == 1, "C01.shapes.handler-runs-once")
+	if len(s.seen) == 1 {
+		vAssert(s.seen[0].same(want), "C01.shapes.request-intact")
+	}
+	vAssert(r.headers[1] == 1 && r.endStream[1] == 1, "C01.shapes.one-response")
+	vCover("C01.shapes.trailers-split", trailers && padded && prio && len(s.seen) == 1)
+}
+
 // Two requests whose frames are interleaved in every order (each request is
 // HEADERS, DATA, DATA+END_STREAM) and whose handlers finish in either order:
 // each handler runs once with its own request, each stream gets exactly one
@@ -185,10 +247,16 @@ func VerifH_C01_response() {
 		body[i] = 'z'
 	}
 	status := [3]int{200, 404, 999}[vRange(0, 2)]
+	// a third field whose name ends in an arbitrary token character: it comes
+	// out lower-cased and otherwise untouched
+	c := vU8()
+	vAssume(refIsTchar(c))
+	third := string([]byte{'y', '_', c})
 	s.sc.h = func(ctx *fasthttp.RequestCtx) {
 		ctx.Response.SetStatusCode(status)
 		ctx.Response.Header.Set("X-One", "1")
 		ctx.Response.Header.Set("x-two", "22")
+		ctx.Response.Header.Set(third, "3")
 		ctx.Response.SetBody(body)
 	}
 	s.send(vFrame(0x1, 0x5, 1, vReqBlock('1')))
@@ -206,6 +274,7 @@ func VerifH_C01_response() {
 	t := &refTable{max: 4096, limit: 4096}
 	blk := h.Headers()
 	var names, values []string
+	thirdOK := false
 	for pos := 0; pos < len(blk); {
 		f, upd, used, st := refHpackRep(t, pos == 0, blk[pos:])
 		vAssert(st == refOK, "C01.response.valid-header-block")
@@ -214,6 +283,10 @@ func VerifH_C01_response() {
 		}
 		pos += used
 		if upd {
+			continue
+		}
+		if f.sidx == 0 && len(f.name) == 3 && len(f.value) == 1 && f.value[0] == '3' {
+			thirdOK = vAnd(f.name[0] == 'y', vAnd(f.name[1] == '_', f.name[2] == refLowerByte(c)))
 			continue
 		}
 		if f.sidx != 0 {
@@ -250,6 +323,7 @@ func VerifH_C01_response() {
 		return false
 	}
 	vAssert(has("x-one", "1") && has("x-two", "22"), "C01.response.fields-lower-cased-and-present")
+	vAssert(thirdOK, "C01.response.field-name-lower-cased-and-otherwise-untouched")
 	var got []byte
 	ends := 0
 	if h.EndStream() {
